@@ -570,10 +570,78 @@ func callbackCase(interval bool, behaviour string, period, k int, r *rep.Report)
 	return "", ""
 }
 
+// dueInstantCancels: 2-3 concurrent cancels issued from other goroutines at exactly the due
+// instant of a timeout or interval (the runtime timer is firing while they run).  Every one of
+// them must return; nothing may fire afterwards; no goroutine may stay behind.
+func dueInstantCancels(interval bool, period, cancellers, ticks int, r *rep.Report) (key, msg string) {
+	var leftovers []string
+	rig.Bubble(r.T(), func() {
+		var mu sync.Mutex
+		fired := 0
+		fn := func() { mu.Lock(); fired++; mu.Unlock() }
+		P := time.Duration(period) * time.Millisecond
+		var tm *utils.Timer
+		if interval {
+			tm = utils.SetInterval(fn, P)
+		} else {
+			tm = utils.SetTimeout(fn, P)
+		}
+		time.Sleep(P * time.Duration(ticks))
+		done := make([]bool, cancellers)
+		for k := 0; k < cancellers; k++ {
+			k := k
+			go func() {
+				if k%2 == 0 {
+					tm.Stop()
+				} else {
+					utils.ClearTimeout(tm)
+				}
+				mu.Lock()
+				done[k] = true
+				mu.Unlock()
+			}()
+		}
+		rig.Wait()
+		mu.Lock()
+		returned := 0
+		for _, d := range done {
+			if d {
+				returned++
+			}
+		}
+		before := fired
+		mu.Unlock()
+		if returned != cancellers {
+			stuck := ""
+			for _, g := range rig.Leftovers() {
+				if strings.Contains(g, "utils.(*Timer).Stop") {
+					stuck = rig.TopFrames(g, 3)
+				}
+			}
+			key, msg = "timer-cancel-hangs", fmt.Sprintf("%d concurrent cancels at the due instant (%d x %d ms): only %d returned; %s", cancellers, ticks, period, returned, stuck)
+			return
+		}
+		time.Sleep(P * 4)
+		rig.Wait()
+		mu.Lock()
+		after := fired
+		mu.Unlock()
+		if after != before {
+			key, msg = "timeout-callback-after-cancel", fmt.Sprintf("%d callback(s) started after %d concurrent cancels at the due instant had returned", after-before, cancellers)
+			return
+		}
+		leftovers = rig.Leftovers()
+	})
+	if key == "" && len(leftovers) > 0 {
+		return "timer-goroutine-left-behind", fmt.Sprintf("%d goroutine(s) left after concurrent cancels at the due instant: %s", len(leftovers), rig.TopFrames(leftovers[0], 3))
+	}
+	return
+}
+
 func TestC19(t *testing.T) {
 	r := rep.New(t, "C19")
 	defer r.Flush()
-	r.Rule("virtual-time (synctest) sequences of SetTimeout/SetInterval/Refresh/Stop/ClearTimeout/ClearInterval on 1-3 timers, operations placed on and off the due instants, issued from other goroutines, with repeated and concurrent cancels; each run compared with a reference schedule (required / optional-at-coincidence / forbidden instants), cancel-return watchdog and bubble leftover scan; gate lanes hold the interval loop between tick and re-arm and a canceller between runtime Stop and its signal; a callback-behaviour lane (the callback cancels or refreshes its own timer; callbacks that outlast 2.5 periods with a cancel from another goroutine while one is running); distinct = (timer kinds, op multiset, number of coincident ops, outcome)")
+	r.Rule("virtual-time (synctest) sequences of SetTimeout/SetInterval/Refresh/Stop/ClearTimeout/ClearInterval on 1-3 timers, operations placed on and off the due instants, issued from other goroutines, with repeated and concurrent cancels; each run compared with a reference schedule (required / optional-at-coincidence / forbidden instants), cancel-return watchdog and bubble leftover scan; gate lanes hold the interval loop between tick and re-arm and a canceller between runtime Stop and its signal; a storm of 2-3 concurrent cancels at exactly the due instant (the runtime timer is firing while they run); a callback-behaviour lane (the callback cancels or refreshes its own timer; callbacks that outlast 2.5 periods with a cancel from another goroutine while one is running); distinct = (timer kinds, op multiset, number of coincident ops, outcome)")
 	r.Assume("an operation issued at exactly a due instant races with the runtime timer by design: the callback of that instant may or may not run (optional), everything else is exact")
 	r.Assume("Refresh is specified for timeouts (pending or fired, not cancelled); it is not generated for intervals or after a cancel")
 	n := r.N(20000, 1500000)
@@ -629,6 +697,19 @@ func TestC19(t *testing.T) {
 					}
 				}
 			}
+		}
+	}
+	nd := r.N(40000, 6000000)
+	for i := 0; i < nd; i++ {
+		iv, period, nc, ticks := i%2 == 0, 1+i%3, 2+i%2, 1+(i/6)%2
+		key, msg := dueInstantCancels(iv, period, nc, ticks, r)
+		if i%1000 == 0 {
+			r.Case(fmt.Sprintf("due-instant-cancels/%v/%d/%d/%d", iv, period, nc, ticks), true)
+		}
+		r.Obs("concurrent_cancels_at_due_instant", 1)
+		if key != "" {
+			r.Violation("due-instant:"+key, msg, map[string]any{"lane": "concurrent cancels at exactly the due instant", "interval": iv, "period_ms": period, "cancellers": nc, "ticks": ticks, "iteration": i})
+			break
 		}
 	}
 	ng := r.N(40, 2000)
